@@ -179,7 +179,8 @@ func execC11SyncFault(sc c11sfScenario) (res pbt.Result) {
 		args := []string{os.Args[0], "-test.run", "^TestC11SyncHelper$", "-test.count=1"}
 		trace := filepath.Join(dir, "trace-"+tag)
 		if traced {
-			args = append([]string{strace, "-f", "-y", "-e", "trace=fsync", "-e", fmt.Sprintf("inject=fsync:error=EIO:when=%d", sc.FailNth), "-o", trace}, args...)
+			// -ff: one output file per thread, so that no call is split into "unfinished" / "resumed" lines
+			args = append([]string{strace, "-ff", "-y", "-e", "trace=fsync", "-e", fmt.Sprintf("inject=fsync:error=EIO:when=%d", sc.FailNth), "-o", trace}, args...)
 		}
 		ctx, cancel := context.WithTimeout(context.Background(), 2*time.Minute)
 		defer cancel()
@@ -196,8 +197,15 @@ func execC11SyncFault(sc c11sfScenario) (res pbt.Result) {
 		if err := json.Unmarshal(b, &o); err != nil {
 			return o, "", err
 		}
-		tr, _ := os.ReadFile(trace)
-		return o, string(tr), nil
+		var tr strings.Builder
+		if files, _ := filepath.Glob(trace + ".*"); traced {
+			for _, f := range files {
+				b, _ := os.ReadFile(f)
+				tr.Write(b)
+				tr.WriteString("\n")
+			}
+		}
+		return o, tr.String(), nil
 	}
 	one, _, err := life("one", sc.A, false)
 	if err != nil || one.Err != "" {
@@ -239,6 +247,12 @@ func execC11SyncFault(sc c11sfScenario) (res pbt.Result) {
 		return res
 	}
 	judge := func(store string, got, first, second []string, errs float64) {
+		if errs > 0 && !failed[store] {
+			// a failed maintenance run the trace does not explain (an injected call the parser could not attribute, a
+			// real I/O problem of the sandbox): nothing is judged for this store
+			res.Class("environment-error:unattributed-maintenance-error")
+			return
+		}
 		want, what := second, "the second life's state (its snapshot completed)"
 		if failed[store] {
 			want, what = first, "the first life's state (the second life's snapshot was not completed: fsync reported EIO)"
